@@ -7,17 +7,21 @@ import (
 
 // GenOpts shapes a random program.
 type GenOpts struct {
-	Keys     []string
-	Ops      int
-	BigVals  bool // values that span sectors (torn writes matter)
-	Compact  bool
-	Reopen   bool
-	Sync     bool
-	Reads    bool
-	CrashAt  bool // include crashat/powerat directives (multi-epoch)
-	Close    bool // end with Close
-	PowerDir string
-	Churn    bool // start by filling most keys, then delete / re-put (index chains with holes)
+	Keys       []string
+	Ops        int
+	BigVals    bool // values that span sectors (torn writes matter)
+	Compact    bool
+	Reopen     bool
+	Sync       bool
+	Reads      bool
+	CrashAt    bool // include crashat/powerat directives (multi-epoch)
+	Close      bool // end with Close
+	PowerDir   string
+	Inject     bool // writers at the yield points of Compact
+	Backup     bool // Backup calls with injected writers, each backup opened afterwards
+	Scans      bool // scans stepped call by call between writes
+	MoreReopen bool
+	Churn      bool // start by filling most keys, then delete / re-put (index chains with holes)
 }
 
 // GenProgram draws a random program.
@@ -69,6 +73,39 @@ func GenProgram(rng *rand.Rand, id string, cfg Cfg, g GenOpts) *Program {
 			}
 		}
 	}
+	nbk, nscan := 0, 0
+	writeOp := func() Op {
+		if rng.Intn(3) == 0 {
+			k := pickLive()
+			delete(live, k)
+			return Op{Op: "del", K: k}
+		}
+		k := pick()
+		v, vl := val()
+		live[k] = true
+		return Op{Op: "put", K: k, V: v, VL: vl}
+	}
+	injections := func(maxAt int) []Inject {
+		var ins []Inject
+		for at := 1; at <= maxAt; at++ {
+			if rng.Intn(3) != 0 {
+				continue
+			}
+			var ops []Op
+			for n := 1 + rng.Intn(2); n > 0; n-- {
+				switch rng.Intn(6) {
+				case 0:
+					ops = append(ops, Op{Op: "get", K: pickLive()})
+				case 1:
+					ops = append(ops, Op{Op: "readall"})
+				default:
+					ops = append(ops, writeOp())
+				}
+			}
+			ins = append(ins, Inject{At: at, Ops: ops})
+		}
+		return ins
+	}
 	for len(p.Ops) < g.Ops {
 		x := rng.Intn(100)
 		switch {
@@ -98,14 +135,39 @@ func GenProgram(rng *rand.Rand, id string, cfg Cfg, g GenOpts) *Program {
 			}
 		case x < 78:
 			if g.Compact {
-				p.Ops = append(p.Ops, Op{Op: "compact"})
+				o := Op{Op: "compact"}
+				if g.Inject {
+					o.T = 1
+					o.Inject = injections(14)
+				}
+				p.Ops = append(p.Ops, o)
+			}
+			if g.Backup && rng.Intn(2) == 0 {
+				nbk++
+				dir := fmt.Sprintf("bk%d-%s", nbk, id)
+				p.Ops = append(p.Ops, Op{Op: "backup", T: 1, Dir: dir, Inject: injections(8)}, Op{Op: "backup_open", Dir: dir})
+			}
+			if g.Scans && rng.Intn(2) == 0 {
+				nscan++
+				p.Ops = append(p.Ops, Op{Op: "scan_start", S: nscan, T: 2})
+				for j := rng.Intn(12); j > 0; j-- {
+					for n := 1 + rng.Intn(4); n > 0; n-- {
+						p.Ops = append(p.Ops, Op{Op: "next", S: nscan, T: 2})
+					}
+					for n := rng.Intn(3); n > 0; n-- {
+						p.Ops = append(p.Ops, writeOp())
+					}
+				}
+				p.Ops = append(p.Ops, Op{Op: "drain", S: nscan, T: 2}, Op{Op: "next", S: nscan, T: 2})
 			}
 		case x < 86:
-			if g.Sync {
+			if g.MoreReopen && rng.Intn(2) == 0 {
+				p.Ops = append(p.Ops, Op{Op: "reopen"})
+			} else if g.Sync {
 				p.Ops = append(p.Ops, Op{Op: "sync"})
 			}
 		case x < 92:
-			if g.Reopen {
+			if g.Reopen || g.MoreReopen {
 				p.Ops = append(p.Ops, Op{Op: "reopen"})
 			}
 		case x < 97:
